@@ -51,7 +51,7 @@ type coalNormY struct {
 }
 
 type coalNormConfigY struct {
-	Macros         []any   `yaml:"macros"`
+	Macros         []any       `yaml:"macros"`
 	Normalizations []coalNormY `yaml:"normalizations"`
 }
 
@@ -116,6 +116,10 @@ func coalToRef(s string) int {
 }
 
 func genCoalNorms(repo string, root *pkg) {
+	runGen("genCoalNorms", []string{"Norms"}, func() { genCoalNormsImpl(repo, root) })
+}
+
+func genCoalNormsImpl(repo string, root *pkg) {
 	raw, err := os.ReadFile(filepath.Join(repo, "aucoalesce", "normalizations.yaml"))
 	if err != nil {
 		fatal("%v", err)
@@ -247,12 +251,20 @@ deriving Repr, DecidableEq, Inhabited
 
 // genCoalEventTypes: see eventtypes.go.
 func genCoalEventTypes(repo string, root *pkg) {
+	runGen("genCoalEventTypes", []string{"CoalEventTypes"}, func() { genCoalEventTypesImpl(repo, root) })
+}
+
+func genCoalEventTypesImpl(repo string, root *pkg) {
 	emitEventTypes("CoalEventTypes", extractEventTypes(load(repo, "aucoalesce", "aucoalesce")))
 }
 
 // genCoalesceConsts emits the record type numbers the coalescer switches on, the os.FileMode
 // bit layout used by setFileObject (as bit indices) and aucoalesce's own modeBlockDevice.
 func genCoalesceConsts(repo string, root *pkg) {
+	runGen("genCoalesceConsts", []string{"CoalesceConsts"}, func() { genCoalesceConstsImpl(repo, root) })
+}
+
+func genCoalesceConstsImpl(repo string, root *pkg) {
 	p := load(repo, "aucoalesce", "aucoalesce")
 	bitsOf := func(v uint32) string {
 		var out []string
